@@ -894,33 +894,52 @@ end OptC
 
 /-! ## Chunk bodies: what `encode` writes is read back by the parsers -/
 
+theorem strHasNul_eq_false (s : String) : strHasNul s = false ↔ NulFree s := by
+  unfold strHasNul NulFree
+  rw [List.any_eq_false]
+  constructor
+  · intro h c hc h0; exact h c hc (by simp [h0])
+  · intro h c hc; simpa using h c hc
+
+theorem strHasNul_eq_true (s : String) : strHasNul s = true ↔ ¬ NulFree s := by
+  rw [← strHasNul_eq_false]; cases strHasNul s <;> simp
+
+/-- the keyword rule of the three `encode` functions: accepted iff Latin-1, 1..79 characters, and
+no U+0000 -/
 theorem encodeKeyword_ok_iff (kw : String) (data : Bytes) :
-    encodeKeyword kw = .ok data ↔ encodeLatin1 kw = .ok data ∧ 1 ≤ kw.length ∧ kw.length ≤ 79 := by
+    encodeKeyword kw = .ok data ↔
+      encodeLatin1 kw = .ok data ∧ 1 ≤ kw.length ∧ kw.length ≤ 79 ∧ NulFree kw := by
   unfold encodeKeyword
   cases he : encodeLatin1 kw with
   | error e => simp
   | ok d =>
     have hl := encodeLatin1_length kw d he
+    have hnul := nul_mem_encodeLatin1 kw d he
     simp only
     cases hb : badKeywordLen d with
     | true =>
       have : ¬ (1 ≤ d.length ∧ d.length ≤ 79) := by
         intro h; rw [(badKeywordLen_eq_false d).mpr h] at hb; cases hb
       simp only [if_true, reduceCtorEq, Except.ok.injEq, false_iff, not_and]
-      intro _ h1 h2; exact this ⟨by omega, by omega⟩
+      intro _ h1 h2; exact absurd ⟨by omega, by omega⟩ this
     | false =>
       have := (badKeywordLen_eq_false d).mp hb
-      simp only [Bool.false_eq_true, if_false, Except.ok.injEq]
-      constructor
-      · intro h; exact ⟨h, by omega, by omega⟩
-      · intro h; exact h.1
+      simp only [Bool.false_eq_true, if_false]
+      by_cases hm : (0 : UInt8) ∈ d
+      · simp only [hm, if_true, reduceCtorEq, Except.ok.injEq, false_iff, not_and]
+        intro _ _ _ hn; exact hnul.mpr hn hm
+      · simp only [hm, if_false, Except.ok.injEq]
+        constructor
+        · intro h; exact ⟨h, by omega, by omega, hnul.mp hm⟩
+        · intro h; exact h.1
 
 /-- which refusal: a character above U+00FF → `Unrepresentable`; otherwise an empty keyword or one
-longer than 79 characters → `InvalidKeywordSize` -/
+longer than 79 characters → `InvalidKeywordSize`; otherwise a U+0000 → `Unrepresentable` -/
 theorem encodeKeyword_err_iff (kw : String) (e : TextEncErr) :
     encodeKeyword kw = .error e ↔
       (¬ IsLatin1 kw ∧ e = .unrepresentable) ∨
-      (IsLatin1 kw ∧ (kw.length = 0 ∨ kw.length > 79) ∧ e = .invalidKeywordSize) := by
+      (IsLatin1 kw ∧ (kw.length = 0 ∨ kw.length > 79) ∧ e = .invalidKeywordSize) ∨
+      (IsLatin1 kw ∧ 1 ≤ kw.length ∧ kw.length ≤ 79 ∧ ¬ NulFree kw ∧ e = .unrepresentable) := by
   unfold encodeKeyword
   cases he : encodeLatin1 kw with
   | error e' =>
@@ -930,12 +949,14 @@ theorem encodeKeyword_err_iff (kw : String) (e : TextEncErr) :
     simp only [Except.error.injEq]
     constructor
     · intro h; exact Or.inl ⟨hnl, h.symm⟩
-    · rintro (⟨_, h⟩ | ⟨h, _⟩)
+    · rintro (⟨_, h⟩ | ⟨h, _⟩ | ⟨h, _⟩)
       · exact h.symm
+      · exact absurd h hnl
       · exact absurd h hnl
   | ok d =>
     have hl := encodeLatin1_length kw d he
     have hlat := encodeLatin1_isLatin1 kw d he
+    have hnul := nul_mem_encodeLatin1 kw d he
     simp only
     cases hb : badKeywordLen d with
     | true =>
@@ -943,28 +964,45 @@ theorem encodeKeyword_err_iff (kw : String) (e : TextEncErr) :
         intro h; rw [(badKeywordLen_eq_false d).mpr h] at hb; cases hb
       simp only [if_true, Except.error.injEq]
       constructor
-      · intro h; exact Or.inr ⟨hlat, by omega, h.symm⟩
-      · rintro (⟨h, _⟩ | ⟨_, _, h⟩)
+      · intro h; exact Or.inr (Or.inl ⟨hlat, by omega, h.symm⟩)
+      · rintro (⟨h, _⟩ | ⟨_, _, h⟩ | ⟨_, h1, h2, _⟩)
         · exact absurd hlat h
         · exact h.symm
+        · exact absurd ⟨by omega, by omega⟩ this
     | false =>
       have := (badKeywordLen_eq_false d).mp hb
-      simp only [Bool.false_eq_true, if_false, reduceCtorEq, false_iff, not_or, not_and]
-      exact ⟨fun h => absurd hlat h, fun _ h => by omega⟩
+      simp only [Bool.false_eq_true, if_false]
+      by_cases hm : (0 : UInt8) ∈ d
+      · simp only [hm, if_true, Except.error.injEq]
+        constructor
+        · intro h
+          exact Or.inr (Or.inr ⟨hlat, by omega, by omega, fun hn => hnul.mpr hn hm, h.symm⟩)
+        · rintro (⟨h, _⟩ | ⟨_, h, _⟩ | ⟨_, _, _, _, h⟩)
+          · exact absurd hlat h
+          · omega
+          · exact h.symm
+      · simp only [hm, if_false, reduceCtorEq, false_iff, not_or, not_and]
+        exact ⟨fun h => absurd hlat h, fun _ h => by omega, fun _ _ _ hn => absurd (hnul.mp hm) hn⟩
 
-/-- an accepted NUL-free keyword becomes keyword bytes in the specification's sense, and they
-decode to the keyword -/
-theorem encodeKeyword_keywordBytes (kw : String) (data : Bytes) (h : encodeKeyword kw = .ok data)
-    (hn : NulFree kw) : KeywordBytes data ∧ decodeLatin1 data = kw := by
-  obtain ⟨h1, h2, h3⟩ := (encodeKeyword_ok_iff kw data).mp h
+/-- an accepted keyword becomes keyword bytes in the specification's sense (1..79 bytes, none of
+them zero), and they decode to the keyword -/
+theorem encodeKeyword_keywordBytes (kw : String) (data : Bytes) (h : encodeKeyword kw = .ok data) :
+    KeywordBytes data ∧ decodeLatin1 data = kw := by
+  obtain ⟨h1, h2, h3, hn⟩ := (encodeKeyword_ok_iff kw data).mp h
   have hl := encodeLatin1_length kw data h1
   exact ⟨⟨by omega, by omega, (nul_mem_encodeLatin1 kw data h1).mpr hn⟩,
     decodeLatin1_of_encodeLatin1 kw data h1⟩
 
-/-- tEXt: written then parsed gives the same chunk (keyword NUL-free; the text may contain
-anything Latin-1, U+0000 included) -/
-theorem tEXt_roundtrip (c : TEXt) (body : Bytes) (h : c.encodeBody = .ok body)
-    (hn : NulFree c.keyword) : parseTEXt body = .ok c := by
+/-- a keyword with a U+0000 in it is refused, whatever else is true of it -/
+theorem encodeKeyword_refuses_nul (kw : String) (h : ¬ NulFree kw) : ∃ e, encodeKeyword kw = .error e := by
+  cases hk : encodeKeyword kw with
+  | error e => exact ⟨e, rfl⟩
+  | ok data => exact absurd ((encodeKeyword_ok_iff kw data).mp hk).2.2.2 h
+
+/-- tEXt: written then parsed gives the same chunk (for every chunk `encode` accepts; the text may
+contain anything Latin-1, U+0000 included) -/
+theorem tEXt_roundtrip (c : TEXt) (body : Bytes) (h : c.encodeBody = .ok body) :
+    parseTEXt body = .ok c := by
   unfold TEXt.encodeBody at h
   cases hk : encodeKeyword c.keyword with
   | error e => rw [hk] at h; cases h
@@ -977,19 +1015,19 @@ theorem tEXt_roundtrip (c : TEXt) (body : Bytes) (h : c.encodeBody = .ok body)
       rw [ht] at h
       simp only [Except.ok.injEq] at h
       subst h
-      obtain ⟨h1, h2⟩ := encodeKeyword_keywordBytes _ _ hk hn
+      obtain ⟨h1, h2⟩ := encodeKeyword_keywordBytes _ _ hk
       rw [parseTEXt_layout data t h1, h2, decodeLatin1_of_encodeLatin1 _ _ ht]
 
 /-- zTXt: written then parsed gives the chunk in its compressed state -/
-theorem zTXt_roundtrip (z : ZCodec) (c : ZTXt) (body : Bytes) (h : c.encodeBody z = .ok body)
-    (hn : NulFree c.keyword) : parseZTXt body = .ok (c.compress z).1 := by
+theorem zTXt_roundtrip (z : ZCodec) (c : ZTXt) (body : Bytes) (h : c.encodeBody z = .ok body) :
+    parseZTXt body = .ok (c.compress z).1 := by
   unfold ZTXt.encodeBody at h
   cases hk : encodeKeyword c.keyword with
   | error e => rw [hk] at h; cases h
   | ok data =>
     rw [hk] at h
     simp only at h
-    obtain ⟨h1, h2⟩ := encodeKeyword_keywordBytes _ _ hk hn
+    obtain ⟨h1, h2⟩ := encodeKeyword_keywordBytes _ _ hk
     obtain ⟨kw, text⟩ := c
     cases text with
     | compressed v =>
@@ -1010,9 +1048,9 @@ theorem zTXt_roundtrip (z : ZCodec) (c : ZTXt) (body : Bytes) (h : c.encodeBody 
 
 /-- the chunk read back from a written zTXt chunk has the same text (under the codec contract) -/
 theorem zTXt_roundtrip_text (z : ZCodec) (hz : z.Ok) (c : ZTXt) (body : Bytes)
-    (h : c.encodeBody z = .ok body) (hn : NulFree c.keyword) :
+    (h : c.encodeBody z = .ok body) :
     ∃ c', parseZTXt body = .ok c' ∧ c'.keyword = c.keyword ∧ c'.getText z = c.getText z := by
-  refine ⟨(c.compress z).1, zTXt_roundtrip z c body h hn, rfl, ?_⟩
+  refine ⟨(c.compress z).1, zTXt_roundtrip z c body h, rfl, ?_⟩
   have hok : (c.text.compress z latin1Coding).2 = .ok () := by
     unfold ZTXt.encodeBody at h
     cases hk : encodeKeyword c.keyword with
@@ -1048,7 +1086,8 @@ theorem ITXt.encodeBody_eq (z : ZCodec) (c : ITXt) :
       match encodeKeyword c.keyword with
       | .error e => .error e
       | .ok data =>
-        if !isAsciiStr c.languageTag then .error .unrepresentable else
+        if !isAsciiStr c.languageTag || strHasNul c.languageTag then .error .unrepresentable else
+        if strHasNul c.translatedKeyword then .error .unrepresentable else
         match c.payload z with
         | none => .error .compressionError
         | some p => .ok (data ++ 0 :: (if c.compressed then 1 else 0) :: 0 ::
@@ -1058,53 +1097,74 @@ theorem ITXt.encodeBody_eq (z : ZCodec) (c : ITXt) :
   | error e => rfl
   | ok data =>
     simp only
-    cases isAsciiStr c.languageTag with
-    | false => rfl
-    | true =>
-      simp only [Bool.not_true, Bool.false_eq_true, if_false]
-      cases c.compressed with
-      | true =>
-        cases c.text with
-        | compressed v => simp
-        | uncompressed s => simp
+    cases (!isAsciiStr c.languageTag || strHasNul c.languageTag) with
+    | true => rfl
+    | false =>
+      simp only [Bool.false_eq_true, if_false]
+      cases strHasNul c.translatedKeyword with
+      | true => rfl
       | false =>
-        cases c.text with
-        | compressed v =>
-          simp only [Bool.false_eq_true, if_false]
-          cases z.decompress v with
-          | none => rfl
-          | some raw => simp
-        | uncompressed s => simp
+        simp only [Bool.false_eq_true, if_false]
+        cases c.compressed with
+        | true =>
+          cases c.text with
+          | compressed v => simp
+          | uncompressed s => simp
+        | false =>
+          cases c.text with
+          | compressed v =>
+            simp only [Bool.false_eq_true, if_false]
+            cases z.decompress v with
+            | none => rfl
+            | some raw => simp
+          | uncompressed s => simp
 
-/-- what the parser makes of the body written by `ITXtChunk::encode`: `ITXt.decode` applied to
-exactly the fields that were written -/
-theorem iTXt_encode_parse (z : ZCodec) (c : ITXt) (body : Bytes) (h : c.encodeBody z = .ok body)
-    (hn : NulFree c.keyword) (hl : NulFree c.languageTag) (ht : NulFree c.translatedKeyword) :
+/-- what an accepted iTXt chunk looks like: keyword accepted, language tag ASCII without U+0000,
+translated keyword without U+0000, and a payload -/
+theorem ITXt.encodeBody_ok (z : ZCodec) (c : ITXt) (body : Bytes) (h : c.encodeBody z = .ok body) :
     ∃ data p, encodeKeyword c.keyword = .ok data ∧ isAsciiStr c.languageTag = true ∧
-      c.payload z = some p ∧
-      parseITXt body = ITXt.decode data (if c.compressed then 1 else 0) 0
-        (utf8Encode c.languageTag) (utf8Encode c.translatedKeyword) p := by
+      NulFree c.languageTag ∧ NulFree c.translatedKeyword ∧ c.payload z = some p ∧
+      body = data ++ 0 :: (if c.compressed then 1 else 0) :: 0 ::
+        (utf8Encode c.languageTag ++ 0 :: (utf8Encode c.translatedKeyword ++ 0 :: p)) := by
   rw [ITXt.encodeBody_eq] at h
   cases hk : encodeKeyword c.keyword with
   | error e => rw [hk] at h; cases h
   | ok data =>
     rw [hk] at h
     simp only at h
-    obtain ⟨h1, h2⟩ := encodeKeyword_keywordBytes _ _ hk hn
     cases ha : isAsciiStr c.languageTag with
     | false => rw [ha] at h; simp at h
     | true =>
       rw [ha] at h
-      simp only [Bool.not_true, Bool.false_eq_true, if_false] at h
-      cases hp : c.payload z with
-      | none => rw [hp] at h; cases h
-      | some p =>
-        rw [hp] at h
-        simp only [Except.ok.injEq] at h
-        refine ⟨data, p, rfl, rfl, rfl, ?_⟩
-        rw [← h]
-        exact parseITXt_layout data _ _ p _ 0 h1 ((nul_mem_utf8Encode _).mpr hl)
-          ((nul_mem_utf8Encode _).mpr ht)
+      cases hl : strHasNul c.languageTag with
+      | true => rw [hl] at h; simp at h
+      | false =>
+        rw [hl] at h
+        cases ht : strHasNul c.translatedKeyword with
+        | true => rw [ht] at h; simp at h
+        | false =>
+          rw [ht] at h
+          simp only [Bool.not_true, Bool.or_self, Bool.false_eq_true, if_false] at h
+          cases hp : c.payload z with
+          | none => rw [hp] at h; cases h
+          | some p =>
+            rw [hp] at h
+            simp only [Except.ok.injEq] at h
+            exact ⟨data, p, rfl, rfl, (strHasNul_eq_false _).mp hl, (strHasNul_eq_false _).mp ht, rfl, h.symm⟩
+
+/-- what the parser makes of the body written by `ITXtChunk::encode`: `ITXt.decode` applied to
+exactly the fields that were written -/
+theorem iTXt_encode_parse (z : ZCodec) (c : ITXt) (body : Bytes) (h : c.encodeBody z = .ok body) :
+    ∃ data p, encodeKeyword c.keyword = .ok data ∧ isAsciiStr c.languageTag = true ∧
+      c.payload z = some p ∧
+      parseITXt body = ITXt.decode data (if c.compressed then 1 else 0) 0
+        (utf8Encode c.languageTag) (utf8Encode c.translatedKeyword) p := by
+  obtain ⟨data, p, hk, ha, hl, ht, hp, hb⟩ := ITXt.encodeBody_ok z c body h
+  obtain ⟨h1, _⟩ := encodeKeyword_keywordBytes _ _ hk
+  refine ⟨data, p, hk, ha, hp, ?_⟩
+  rw [hb]
+  exact parseITXt_layout data _ _ p _ 0 h1 ((nul_mem_utf8Encode _).mpr hl)
+    ((nul_mem_utf8Encode _).mpr ht)
 
 /-- `ITXt.decode` of fields that were produced from a chunk's own strings -/
 theorem ITXt.decode_of_fields (c : ITXt) (data p : Bytes) (hk : encodeKeyword c.keyword = .ok data)
@@ -1115,7 +1175,7 @@ theorem ITXt.decode_of_fields (c : ITXt) (data p : Bytes) (hk : encodeKeyword c.
       else match utf8Decode p with
         | none => .err .unrepresentable
         | some s => .ok ⟨c.keyword, false, c.languageTag, c.translatedKeyword, .uncompressed s⟩ := by
-  obtain ⟨h1, h2, h3⟩ := (encodeKeyword_ok_iff _ _).mp hk
+  obtain ⟨h1, h2, h3, _⟩ := (encodeKeyword_ok_iff _ _).mp hk
   have hl := encodeLatin1_length _ _ h1
   have hb : badKeywordLen data = false := (badKeywordLen_eq_false data).mpr ⟨by omega, by omega⟩
   have hd := decodeLatin1_of_encodeLatin1 _ _ h1
@@ -1125,10 +1185,9 @@ theorem ITXt.decode_of_fields (c : ITXt) (data p : Bytes) (hk : encodeKeyword c.
 
 /-- iTXt, uncompressed: written then parsed gives the same chunk -/
 theorem iTXt_roundtrip_plain (z : ZCodec) (c : ITXt) (s : String) (body : Bytes)
-    (hc : c.compressed = false) (hs : c.text = .uncompressed s) (h : c.encodeBody z = .ok body)
-    (hn : NulFree c.keyword) (hl : NulFree c.languageTag) (ht : NulFree c.translatedKeyword) :
+    (hc : c.compressed = false) (hs : c.text = .uncompressed s) (h : c.encodeBody z = .ok body) :
     parseITXt body = .ok c := by
-  obtain ⟨data, p, hk, ha, hp, hparse⟩ := iTXt_encode_parse z c body h hn hl ht
+  obtain ⟨data, p, hk, ha, hp, hparse⟩ := iTXt_encode_parse z c body h
   rw [hparse, ITXt.decode_of_fields c data p hk ha]
   simp only [ITXt.payload, hc, hs, Bool.false_eq_true, if_false, Option.some.injEq] at hp ⊢
   subst hp
@@ -1138,10 +1197,9 @@ theorem iTXt_roundtrip_plain (z : ZCodec) (c : ITXt) (s : String) (body : Bytes)
 
 /-- iTXt with `compressed = true`: written then parsed gives the chunk in its compressed state -/
 theorem iTXt_roundtrip_compressed (z : ZCodec) (c : ITXt) (body : Bytes)
-    (hc : c.compressed = true) (h : c.encodeBody z = .ok body)
-    (hn : NulFree c.keyword) (hl : NulFree c.languageTag) (ht : NulFree c.translatedKeyword) :
+    (hc : c.compressed = true) (h : c.encodeBody z = .ok body) :
     parseITXt body = .ok (c.compress z).1 := by
-  obtain ⟨data, p, hk, ha, hp, hparse⟩ := iTXt_encode_parse z c body h hn hl ht
+  obtain ⟨data, p, hk, ha, hp, hparse⟩ := iTXt_encode_parse z c body h
   rw [hparse, ITXt.decode_of_fields c data p hk ha]
   obtain ⟨kw, cf, lt, tk, tx⟩ := c
   simp only at hc; subst hc
@@ -1156,13 +1214,12 @@ theorem iTXt_roundtrip_compressed (z : ZCodec) (c : ITXt) (body : Bytes)
 inflated and written as is; it is read back as plain text when it is valid UTF-8 and refused
 otherwise -/
 theorem iTXt_roundtrip_inflated (z : ZCodec) (c : ITXt) (v body : Bytes)
-    (hc : c.compressed = false) (hs : c.text = .compressed v) (h : c.encodeBody z = .ok body)
-    (hn : NulFree c.keyword) (hl : NulFree c.languageTag) (ht : NulFree c.translatedKeyword) :
+    (hc : c.compressed = false) (hs : c.text = .compressed v) (h : c.encodeBody z = .ok body) :
     ∃ raw, z.decompress v = some raw ∧
       parseITXt body = match utf8Decode raw with
         | none => .err .unrepresentable
         | some s => .ok { c with text := .uncompressed s } := by
-  obtain ⟨data, p, hk, ha, hp, hparse⟩ := iTXt_encode_parse z c body h hn hl ht
+  obtain ⟨data, p, hk, ha, hp, hparse⟩ := iTXt_encode_parse z c body h
   rw [hparse, ITXt.decode_of_fields c data p hk ha]
   simp only [ITXt.payload, hc, hs, Bool.false_eq_true, if_false] at hp ⊢
   refine ⟨p, hp, ?_⟩
@@ -1170,6 +1227,77 @@ theorem iTXt_roundtrip_inflated (z : ZCodec) (c : ITXt) (v body : Bytes)
   simp only at hc; subst hc
   cases utf8Decode p <;> rfl
 
+/-- iTXt, all three cases in one statement at the level of what a reader of the chunk observes:
+whenever the chunk holds a text, what `encode` writes is read back as a chunk with the same keyword,
+flag, language tag, translated keyword and text -/
+theorem iTXt_roundtrip_text (z : ZCodec) (hz : z.Ok) (c : ITXt) (body : Bytes)
+    (h : c.encodeBody z = .ok body) (ht : c.compressed = false → ∃ s, c.getText z = .ok s) :
+    ∃ c', parseITXt body = .ok c' ∧ c'.keyword = c.keyword ∧ c'.compressed = c.compressed ∧
+      c'.languageTag = c.languageTag ∧ c'.translatedKeyword = c.translatedKeyword ∧
+      c'.getText z = c.getText z := by
+  cases hc : c.compressed with
+  | true =>
+    refine ⟨(c.compress z).1, iTXt_roundtrip_compressed z c body hc h, rfl, ?_, rfl, rfl, ?_⟩
+    · simp only [ITXt.compress, hc]
+    · have hok : (c.text.compress z utf8Coding).2 = .ok () := by
+        cases c.text with
+        | compressed v => rfl
+        | uncompressed s => rfl
+      exact OptC.getText_compress hz utf8Coding_ok c.text hok
+  | false =>
+    cases hs : c.text with
+    | uncompressed s =>
+      exact ⟨c, iTXt_roundtrip_plain z c s body hc hs h, rfl, hc.symm ▸ rfl, rfl, rfl, rfl⟩
+    | compressed v =>
+      obtain ⟨raw, hd, hp⟩ := iTXt_roundtrip_inflated z c v body hc hs h
+      obtain ⟨s, hg⟩ := ht hc
+      have hg' := hg
+      simp only [ITXt.getText, OptC.getText, hs, hd, utf8Coding] at hg'
+      cases hu : utf8Decode raw with
+      | none => rw [hu] at hg'; cases hg'
+      | some s' =>
+        rw [hu] at hp hg'
+        simp only [Except.ok.injEq] at hg'
+        subst hg'
+        refine ⟨_, hp, rfl, by simp only [hc], rfl, rfl, ?_⟩
+        rw [hg]; rfl
+
+/-- NUL in a keyword-like field ⇒ `encode` answers with an error (nothing is written) -/
+theorem encode_refuses_nul :
+    (∀ c : TEXt, ¬ NulFree c.keyword → ∃ e, c.encodeBody = .error e) ∧
+    (∀ (z : ZCodec) (c : ZTXt), ¬ NulFree c.keyword → ∃ e, c.encodeBody z = .error e) ∧
+    (∀ (z : ZCodec) (c : ITXt), ¬ NulFree c.keyword ∨ ¬ NulFree c.languageTag ∨ ¬ NulFree c.translatedKeyword →
+      ∃ e, c.encodeBody z = .error e) := by
+  refine ⟨?_, ?_, ?_⟩
+  · intro c hn
+    obtain ⟨e, he⟩ := encodeKeyword_refuses_nul _ hn
+    exact ⟨e, by simp only [TEXt.encodeBody, he]⟩
+  · intro z c hn
+    obtain ⟨e, he⟩ := encodeKeyword_refuses_nul _ hn
+    exact ⟨e, by simp only [ZTXt.encodeBody, he]⟩
+  · intro z c hn
+    cases hb : c.encodeBody z with
+    | error e => exact ⟨e, rfl⟩
+    | ok body =>
+      obtain ⟨data, p, hk, _, hl, ht, _, _⟩ := ITXt.encodeBody_ok z c body hb
+      have hkn := ((encodeKeyword_ok_iff _ _).mp hk).2.2.2
+      rcases hn with h | h | h
+      · exact absurd hkn h
+      · exact absurd hl h
+      · exact absurd ht h
+
+/-- … and which error: `Unrepresentable`, unless the keyword is already refused for another reason
+that is checked first (a character above U+00FF — also `Unrepresentable` — or its length) -/
+theorem encode_refuses_nul_kind (z : ZCodec) (c : ITXt) (data : Bytes)
+    (hk : encodeKeyword c.keyword = .ok data)
+    (hn : ¬ NulFree c.languageTag ∨ ¬ NulFree c.translatedKeyword) :
+    c.encodeBody z = .error .unrepresentable := by
+  rw [ITXt.encodeBody_eq, hk]
+  simp only
+  rcases hn with h | h
+  · rw [(strHasNul_eq_true _).mpr h]; simp
+  · rw [(strHasNul_eq_true _).mpr h]
+    cases (!isAsciiStr c.languageTag || strHasNul c.languageTag) <;> simp
 
 /-! ## Chunk-level statements (zTXt = Latin-1 coding, iTXt = UTF-8 coding) -/
 
